@@ -211,6 +211,21 @@ func (s *kpasswdSim) handle(req []byte) []byte {
 		return genuine
 	case "reflected": // the client's own KRB-PRIV, which it can open: same key, same key usage
 		return kpFrame(aprep, privB)
+	case "reflected-kvno", "reflected-etype": // the same, with an unauthenticated outer field of the EncryptedData changed (decryption ignores both)
+		var kp messages.KRBPriv
+		if kp.Unmarshal(privB) != nil {
+			return kpFrame(aprep, privB)
+		}
+		if mode == "reflected-kvno" {
+			kp.EncPart.KVNO += 1
+		} else {
+			kp.EncPart.EType = map[int32]int32{17: 18, 18: 17, 19: 20, 20: 19, 16: 23, 23: 16}[kp.EncPart.EType]
+		}
+		b, err := kp.Marshal()
+		if err != nil {
+			return kpFrame(aprep, privB)
+		}
+		return kpFrame(aprep, b)
 	case "errorform0": // the error form (no AP-REP) whose unauthenticated e-data says "success"
 		e := messages.NewKRBError(ap.Ticket.SName, s.realm, 60, "")
 		e.EData = kpResult(0, "Password changed")
@@ -239,7 +254,7 @@ func randEncKeyCrypto(et int32) types.EncryptionKey {
 	return types.EncryptionKey{KeyType: et, KeyValue: randKeyCrypto(et)}
 }
 
-var kpModes = []string{"genuine", "refused", "reflected", "errorform0", "earlier", "wrongkey", "sessionkey", "tampered", "truncated"}
+var kpModes = []string{"genuine", "refused", "reflected", "reflected-kvno", "reflected-etype", "errorform0", "earlier", "wrongkey", "sessionkey", "tampered", "truncated"}
 
 func cmdKPasswd(args []string) error {
 	fs := flag.NewFlagSet("kpasswd", flag.ExitOnError)
